@@ -91,39 +91,58 @@ theorem sq_accept (s : List Char) (h : (sqDfa.run 0 s == 0) = true) : qGo '\'' f
   rw [← this]; exact h
 
 /-! ### inside an unquoted word / at the start of a token
-states 0 = nothing read yet, 1 = inside, last character is not `$`, 2 = inside, last character is `$`, 3 = a structural
-character was read. -/
+states 0 = nothing read yet, 1 = inside, no `$` pending, 2 = inside, `$` pending (a following `{` is literal),
+3 = a structural character was read. -/
 
-def wordG (k : Nat) : Nat := if k < 7 then 3 else if k = 7 then 2 else 1
-/-- at the start of a token the classes 8..11 (`"`, `'`, `#`, `}`) are structural too -/
-def tokenG (k : Nat) : Nat := if k < 7 then 3 else if k = 7 then 2 else if k < 12 then 3 else 1
+/-- classes: 0..3 whitespace, 4 `;`, 5 `{`, 6 backslash, 7 `$`, (token automaton: 8 `"`, 9 `'`, 10 `#`, 11 `}`), last = other -/
+def wordDelta (p k : Nat) : Nat :=
+  if p = 3 then 3 else if k = 5 then (if p = 2 then 2 else 3) else if k = 7 then 2 else if k < 7 then 3 else 1
 
 def wordDfa : Dfa where
   specials := [32, 9, 13, 10, 59, 123, 92, 36]
   states := 4
-  δ := fun p k => if p = 3 then 3 else wordG k
+  δ := wordDelta
 
 def tokenDfa : Dfa where
   specials := [32, 9, 13, 10, 59, 123, 92, 36, 34, 39, 35, 125]
   states := 4
-  δ := fun p k => if p = 3 then 3 else if p = 0 then tokenG k else wordG k
+  δ := fun p k => if p = 0 ∧ 8 ≤ k ∧ k < 12 then 3 else wordDelta p k
+
+/-- One step inside a word, in the tokenizer's own terms. -/
+def wstep (p : Nat) (c : Char) : Nat :=
+  if p = 3 then 3 else if c = '{' then (if p = 2 then 2 else 3) else if c = '\\' then 3 else if c = '$' then 2
+  else if (isWs c || c == ';') = true then 3 else 1
 
 theorem char_of (c : Char) (d : Char) (h : c.toNat = d.toNat) : c = d := Char.toNat_inj.mp h
 
-/-- One step of `wordDfa`, in the tokenizer's own terms. -/
-theorem word_step (c : Char) :
-    wordG (wordDfa.classOf c) = if wordChar c = false then 3 else if c = '$' then 2 else 1 := by
+theorem word_step (p : Nat) (c : Char) : wordDfa.δ p (wordDfa.classOf c) = wstep p c := by
   by_cases h : c.toNat ∈ wordDfa.specials
   · simp only [wordDfa, List.mem_cons, List.not_mem_nil, or_false] at h
     rcases h with h | h | h | h | h | h | h | h
-    · have := char_of c ' ' h; subst this; decide
-    · have := char_of c '\t' h; subst this; decide
-    · have := char_of c '\r' h; subst this; decide
-    · have := char_of c '\n' h; subst this; decide
-    · have := char_of c ';' h; subst this; decide
-    · have := char_of c '{' h; subst this; decide
-    · have := char_of c '\\' h; subst this; decide
-    · have := char_of c '$' h; subst this; decide
+    · have := char_of c ' ' h; subst this
+      have hk : wordDfa.classOf ' ' = 0 := by decide
+      rw [hk]; show wordDelta p 0 = _; unfold wordDelta wstep; simp [isWs]
+    · have := char_of c '\t' h; subst this
+      have hk : wordDfa.classOf '\t' = 1 := by decide
+      rw [hk]; show wordDelta p 1 = _; unfold wordDelta wstep; simp [isWs]
+    · have := char_of c '\r' h; subst this
+      have hk : wordDfa.classOf '\r' = 2 := by decide
+      rw [hk]; show wordDelta p 2 = _; unfold wordDelta wstep; simp [isWs]
+    · have := char_of c '\n' h; subst this
+      have hk : wordDfa.classOf '\n' = 3 := by decide
+      rw [hk]; show wordDelta p 3 = _; unfold wordDelta wstep; simp [isWs]
+    · have := char_of c ';' h; subst this
+      have hk : wordDfa.classOf ';' = 4 := by decide
+      rw [hk]; show wordDelta p 4 = _; unfold wordDelta wstep; simp [isWs]
+    · have := char_of c '{' h; subst this
+      have hk : wordDfa.classOf '{' = 5 := by decide
+      rw [hk]; show wordDelta p 5 = _; unfold wordDelta wstep; simp [isWs]
+    · have := char_of c '\\' h; subst this
+      have hk : wordDfa.classOf '\\' = 6 := by decide
+      rw [hk]; show wordDelta p 6 = _; unfold wordDelta wstep; simp [isWs]
+    · have := char_of c '$' h; subst this
+      have hk : wordDfa.classOf '$' = 7 := by decide
+      rw [hk]; show wordDelta p 7 = _; unfold wordDelta wstep; simp [isWs]
   · have hidx : wordDfa.classOf c = 8 := List.idxOf_eq_length h
     simp only [wordDfa, List.mem_cons, List.not_mem_nil, or_false, not_or] at h
     obtain ⟨h1, h2, h3, h4, h5, h6, h7, h8⟩ := h
@@ -135,11 +154,149 @@ theorem word_step (c : Char) :
     have n6 : c ≠ '{' := fun e => h6 (by rw [e]; rfl)
     have n7 : c ≠ '\\' := fun e => h7 (by rw [e]; rfl)
     have n8 : c ≠ '$' := fun e => h8 (by rw [e]; rfl)
-    have hw : wordChar c = true := by simp [wordChar, isWs, n1, n2, n3, n4, n5, n6, n7]
-    simp [hidx, wordG, hw, n8]
+    rw [hidx]
+    simp [wstep, wordDfa, wordDelta, isWs, n1, n2, n3, n4, n5, n6, n7, n8]
 
-theorem token_step (c : Char) :
-    tokenG (tokenDfa.classOf c) = if startChar c = false then 3 else if c = '$' then 2 else 1 := by
+/-- Encoding of `wordGo`'s answer as an automaton state. -/
+def enc : Option Bool → Nat
+  | none => 3
+  | some false => 1
+  | some true => 2
+
+theorem word_dead (t : List Char) : wordDfa.run 3 t = 3 := by
+  induction t with
+  | nil => rfl
+  | cons c cs ih => simp only [Dfa.run]; rw [show wordDfa.δ 3 (wordDfa.classOf c) = 3 by simp [wordDfa, wordDelta]]; exact ih
+
+theorem word_run_go (v : List Char) : ∀ b : Bool, wordDfa.run (if b then 2 else 1) v = enc (wordGo b v) := by
+  induction v with
+  | nil => intro b; cases b <;> rfl
+  | cons c cs ih =>
+    intro b
+    simp only [Dfa.run, word_step]
+    unfold wordGo
+    by_cases h1 : c = '{'
+    · subst h1
+      cases b
+      · simp [wstep, word_dead, enc]
+      · have := ih true
+        simpa [wstep] using this
+    · have e1 : (c == '{') = false := by simpa using h1
+      by_cases h2 : c = '\\'
+      · subst h2
+        cases b <;> simp [wstep, word_dead, enc]
+      · have e2 : (c == '\\') = false := by simpa using h2
+        by_cases h3 : c = '$'
+        · subst h3
+          have := ih true
+          cases b <;> simpa [wstep] using this
+        · have e3 : (c == '$') = false := by simpa using h3
+          by_cases h4 : (isWs c || c == ';') = true
+          · have h4' : (isWs c || c == ';' || c == '{') = true := by simp [h4]
+            cases b <;> simp [wstep, h1, h2, h3, h4, h4', e1, e2, e3, word_dead, enc]
+          · have h4' : (isWs c || c == ';' || c == '{') = false := by
+              simp only [Bool.or_eq_true, not_or, Bool.not_eq_true] at h4
+              simp [h4.1, h4.2, e1]
+            have := ih false
+            cases b <;> simpa [wstep, h1, h2, h3, h4, h4', e1, e2, e3] using this
+
+/-- from the start state the word automaton behaves as from state 1 (a leading `{` is structural either way) -/
+theorem word_run_start (c : Char) (cs : List Char) : wordDfa.run 0 (c :: cs) = wordDfa.run 1 (c :: cs) := by
+  simp only [Dfa.run, word_step]
+  have : wstep 0 c = wstep 1 c := by simp [wstep]
+  rw [this]
+
+theorem word_accept_body (v : List Char) (h : wordDfa.run 0 v = 1 ∨ wordDfa.run 0 v = 2) : WordBody v := by
+  cases v with
+  | nil => simp [Dfa.run] at h
+  | cons c cs =>
+    rw [word_run_start] at h
+    have hg := word_run_go (c :: cs) false
+    simp only [Bool.false_eq_true, if_false] at hg
+    rw [hg] at h
+    refine ⟨by simp, ?_, ?_⟩
+    · intro hh
+      simp only [List.head?_cons, Option.some.injEq] at hh
+      subst hh
+      simp [wordGo, enc] at h
+    · cases hw : wordGo false (c :: cs) with
+      | none => rw [hw] at h; simp [enc] at h
+      | some b => rfl
+
+theorem word_accept (v : List Char) (h : (wordDfa.run 0 v == 1) = true) : WordSafe v := by
+  have h : wordDfa.run 0 v = 1 := by simpa using h
+  obtain ⟨hne, hhd, _⟩ := word_accept_body v (Or.inl h)
+  refine ⟨hne, hhd, ?_⟩
+  cases v with
+  | nil => exact absurd rfl hne
+  | cons c cs =>
+    rw [word_run_start] at h
+    have hg := word_run_go (c :: cs) false
+    simp only [Bool.false_eq_true, if_false] at hg
+    rw [hg] at h
+    cases hw : wordGo false (c :: cs) with
+    | none => rw [hw] at h; simp [enc] at h
+    | some b => cases b
+                · rfl
+                · rw [hw] at h; simp [enc] at h
+
+/-! token automaton -/
+
+theorem token_class_compat (c : Char) (p : Nat) (hp : p ≠ 0) :
+    tokenDfa.δ p (tokenDfa.classOf c) = wordDfa.δ p (wordDfa.classOf c) := by
+  have hδ : ∀ k, tokenDfa.δ p k = wordDelta p k := by intro k; simp [tokenDfa, hp]
+  rw [hδ]
+  show wordDelta p _ = wordDelta p _
+  by_cases h : c.toNat ∈ tokenDfa.specials
+  · simp only [tokenDfa, List.mem_cons, List.not_mem_nil, or_false] at h
+    rcases h with h | h | h | h | h | h | h | h | h | h | h | h
+    · have := char_of c ' ' h; subst this; rfl
+    · have := char_of c '\t' h; subst this; rfl
+    · have := char_of c '\r' h; subst this; rfl
+    · have := char_of c '\n' h; subst this; rfl
+    · have := char_of c ';' h; subst this; rfl
+    · have := char_of c '{' h; subst this; rfl
+    · have := char_of c '\\' h; subst this; rfl
+    · have := char_of c '$' h; subst this; rfl
+    · have := char_of c '"' h; subst this
+      have hk : tokenDfa.classOf '"' = 8 := by decide
+      have hk' : wordDfa.classOf '"' = 8 := by decide
+      rw [hk, hk'] <;> (unfold wordDelta; simp)
+    · have := char_of c '\'' h; subst this
+      have hk : tokenDfa.classOf '\'' = 9 := by decide
+      have hk' : wordDfa.classOf '\'' = 8 := by decide
+      rw [hk, hk'] <;> (unfold wordDelta; simp)
+    · have := char_of c '#' h; subst this
+      have hk : tokenDfa.classOf '#' = 10 := by decide
+      have hk' : wordDfa.classOf '#' = 8 := by decide
+      rw [hk, hk'] <;> (unfold wordDelta; simp)
+    · have := char_of c '}' h; subst this
+      have hk : tokenDfa.classOf '}' = 11 := by decide
+      have hk' : wordDfa.classOf '}' = 8 := by decide
+      rw [hk, hk'] <;> (unfold wordDelta; simp)
+  · have hidx : tokenDfa.classOf c = 12 := List.idxOf_eq_length h
+    have h' : c.toNat ∉ wordDfa.specials := by
+      intro hm; apply h
+      simp only [wordDfa, List.mem_cons, List.not_mem_nil, or_false] at hm
+      simp only [tokenDfa, List.mem_cons, List.not_mem_nil, or_false]
+      omega
+    have hidx' : wordDfa.classOf c = 8 := List.idxOf_eq_length h'
+    rw [hidx, hidx']; simp [wordDelta]
+
+theorem wordDelta_ne0 (p k : Nat) (hp : p ≠ 0) : wordDelta p k ≠ 0 := by
+  unfold wordDelta; split <;> (try split) <;> (try split) <;> (try split) <;> omega
+
+theorem token_run_inside (s : List Char) : ∀ p, p ≠ 0 → tokenDfa.run p s = wordDfa.run p s := by
+  induction s with
+  | nil => intro p _; rfl
+  | cons c cs ih =>
+    intro p hp
+    simp only [Dfa.run, token_class_compat c p hp]
+    exact ih _ (wordDelta_ne0 p _ hp)
+
+/-- the first character of a token -/
+theorem token_first (c : Char) :
+    tokenDfa.δ 0 (tokenDfa.classOf c) = if startChar c = true then (if c = '$' then 2 else 1) else 3 := by
   by_cases h : c.toNat ∈ tokenDfa.specials
   · simp only [tokenDfa, List.mem_cons, List.not_mem_nil, or_false] at h
     rcases h with h | h | h | h | h | h | h | h | h | h | h | h
@@ -170,168 +327,84 @@ theorem token_step (c : Char) :
     have n10 : c ≠ '\'' := fun e => h10 (by rw [e]; rfl)
     have n11 : c ≠ '#' := fun e => h11 (by rw [e]; rfl)
     have n12 : c ≠ '}' := fun e => h12 (by rw [e]; rfl)
-    have hw : startChar c = true := by simp [startChar, wordChar, isWs, n1, n2, n3, n4, n5, n6, n7, n9, n10, n11, n12]
-    simp [hidx, tokenG, hw, n8]
+    have hw : startChar c = true := by simp [startChar, isWs, n1, n2, n3, n4, n5, n6, n7, n9, n10, n11, n12]
+    rw [hidx]
+    simp [tokenDfa, wordDelta, hw, n8]
 
-/-- the word automaton and the token automaton classify the characters after the first alike -/
-theorem token_word_class (c : Char) : wordG (tokenDfa.classOf c) = wordG (wordDfa.classOf c) := by
-  by_cases h : c.toNat ∈ tokenDfa.specials
-  · simp only [tokenDfa, List.mem_cons, List.not_mem_nil, or_false] at h
-    rcases h with h | h | h | h | h | h | h | h | h | h | h | h
-    · have := char_of c ' ' h; subst this; decide
-    · have := char_of c '\t' h; subst this; decide
-    · have := char_of c '\r' h; subst this; decide
-    · have := char_of c '\n' h; subst this; decide
-    · have := char_of c ';' h; subst this; decide
-    · have := char_of c '{' h; subst this; decide
-    · have := char_of c '\\' h; subst this; decide
-    · have := char_of c '$' h; subst this; decide
-    · have := char_of c '"' h; subst this; decide
-    · have := char_of c '\'' h; subst this; decide
-    · have := char_of c '#' h; subst this; decide
-    · have := char_of c '}' h; subst this; decide
-  · have hidx : tokenDfa.classOf c = 12 := List.idxOf_eq_length h
-    have h' : c.toNat ∉ wordDfa.specials := by
-      intro hm; apply h
-      simp only [wordDfa, List.mem_cons, List.not_mem_nil, or_false] at hm
-      simp only [tokenDfa, List.mem_cons, List.not_mem_nil, or_false]
-      omega
-    have hidx' : wordDfa.classOf c = 8 := List.idxOf_eq_length h'
-    rw [hidx, hidx']; rfl
+theorem token_dead (t : List Char) : tokenDfa.run 3 t = 3 := by
+  rw [token_run_inside t 3 (by omega)]; exact word_dead t
 
-/-- Running the word automaton from an "inside" state (1 or 2). -/
-theorem word_run_inside (s : List Char) : ∀ p, (p = 1 ∨ p = 2) →
-    (wordDfa.run p s = 1 → s.all wordChar = true ∧ (s ≠ [] → endsDollar s = false) ∧ (s = [] → p = 1)) := by
-  induction s with
-  | nil => intro p _ h; simp [Dfa.run] at h; simp [h]
-  | cons c cs ih =>
-    intro p hp h
-    have hp3 : p ≠ 3 := by omega
-    simp only [Dfa.run] at h
-    have hδ : wordDfa.δ p (wordDfa.classOf c) = wordG (wordDfa.classOf c) := by simp [wordDfa, hp3]
-    rw [hδ, word_step] at h
-    by_cases hw : wordChar c = false
-    · simp only [hw, if_true] at h
-      exfalso
-      have : ∀ t, wordDfa.run 3 t = 3 := by
-        intro t; induction t with
-        | nil => rfl
-        | cons d ds ih2 => simp only [Dfa.run]; have : wordDfa.δ 3 (wordDfa.classOf d) = 3 := by simp [wordDfa]
-                           rw [this]; exact ih2
-      rw [this] at h; omega
-    · have hw : wordChar c = true := by simpa using hw
-      simp only [hw, Bool.true_eq_false, if_false] at h
+/-- what `wordGo` says about the first character of a token -/
+theorem wordGo_first (c : Char) (cs : List Char) (hc : startChar c = true) :
+    wordGo false (c :: cs) = wordGo (c == '$') cs := by
+  simp only [startChar, Bool.not_eq_true', Bool.or_eq_false_iff] at hc
+  obtain ⟨⟨⟨⟨⟨⟨⟨h1, h2⟩, h3⟩, h4⟩, _⟩, _⟩, _⟩, _⟩ := hc
+  by_cases hd : c = '$'
+  · subst hd; simp [wordGo]
+  · have : (c == '$') = false := by simpa using hd
+    simp [wordGo, h1, h2, h3, h4, this]
+
+theorem token_accept_body (v : List Char) (h : tokenDfa.run 0 v = 1 ∨ tokenDfa.run 0 v = 2) : TokenBody v := by
+  cases v with
+  | nil => simp [Dfa.run] at h
+  | cons c cs =>
+    simp only [Dfa.run, token_first] at h
+    by_cases hs : startChar c = true
+    · refine ⟨c, cs, rfl, hs, ?_⟩
+      simp only [hs, if_true] at h
+      rw [wordGo_first c cs hs]
       by_cases hd : c = '$'
-      · simp only [hd, if_true] at h
-        obtain ⟨a, b, e⟩ := ih 2 (Or.inr rfl) h
-        refine ⟨by simp [hw, a], fun _ => ?_, fun e0 => by cases e0⟩
-        cases cs with
-        | nil => exact absurd (e rfl) (by decide)
-        | cons d ds => simpa [endsDollar] using b (by simp)
+      · subst hd
+        simp only [if_true] at h
+        rw [token_run_inside cs 2 (by omega)] at h
+        have := word_run_go cs true
+        simp only [if_true] at this
+        rw [this] at h
+        cases hw : wordGo true cs with
+        | none => rw [hw] at h; simp [enc] at h
+        | some b => simp [hw]
       · simp only [hd, if_false] at h
-        obtain ⟨a, b, _⟩ := ih 1 (Or.inl rfl) h
-        refine ⟨by simp [hw, a], fun _ => ?_, fun e0 => by cases e0⟩
-        cases cs with
-        | nil => simp [endsDollar, hd]
-        | cons d ds => simpa [endsDollar] using b (by simp)
+        rw [token_run_inside cs 1 (by omega)] at h
+        have := word_run_go cs false
+        simp only [Bool.false_eq_true, if_false] at this
+        rw [this] at h
+        have e : (c == '$') = false := by simpa using hd
+        rw [e]
+        cases hw : wordGo false cs with
+        | none => rw [hw] at h; simp [enc] at h
+        | some b => rfl
+    · simp only [hs, Bool.false_eq_true, if_false] at h
+      rw [token_dead] at h; omega
 
-theorem dead_run (d : Dfa) (hd : ∀ k, d.δ 3 k = 3) (t : List Char) : d.run 3 t = 3 := by
-  induction t with
-  | nil => rfl
-  | cons c cs ih => simp only [Dfa.run, hd]; exact ih
-
-theorem word_accept (s : List Char) (h : (wordDfa.run 0 s == 1) = true) : WordSafe s := by
-  have h : wordDfa.run 0 s = 1 := by simpa using h
-  cases s with
-  | nil => simp [Dfa.run] at h
-  | cons c cs =>
-    simp only [Dfa.run] at h
-    have hδ : wordDfa.δ 0 (wordDfa.classOf c) = wordG (wordDfa.classOf c) := by simp [wordDfa]
-    rw [hδ, word_step] at h
-    by_cases hw : wordChar c = false
-    · simp only [hw, if_true] at h
-      rw [dead_run wordDfa (by intro k; simp [wordDfa])] at h; omega
-    · have hw : wordChar c = true := by simpa using hw
-      simp only [hw, Bool.true_eq_false, if_false] at h
-      refine ⟨by simp, ?_, ?_⟩
-      · by_cases hd : c = '$'
-        · simp only [hd, if_true] at h
-          simp [hw, (word_run_inside cs 2 (Or.inr rfl) h).1]
-        · simp only [hd, if_false] at h
-          simp [hw, (word_run_inside cs 1 (Or.inl rfl) h).1]
-      · by_cases hd : c = '$'
-        · simp only [hd, if_true] at h
-          obtain ⟨_, b, e⟩ := word_run_inside cs 2 (Or.inr rfl) h
-          cases cs with
-          | nil => exact absurd (e rfl) (by decide)
-          | cons d ds => simpa [endsDollar] using b (by simp)
-        · simp only [hd, if_false] at h
-          obtain ⟨_, b, _⟩ := word_run_inside cs 1 (Or.inl rfl) h
-          cases cs with
-          | nil => simp [endsDollar, hd]
-          | cons d ds => simpa [endsDollar] using b (by simp)
-
-theorem wordG_range (k : Nat) : wordG k = 1 ∨ wordG k = 2 ∨ wordG k = 3 := by
-  unfold wordG; split
-  · simp
-  · split <;> simp
-
-theorem token_delta_inside (p k : Nat) (hp : p = 1 ∨ p = 2) : tokenDfa.δ p k = wordG k := by
-  rcases hp with rfl | rfl <;> simp [tokenDfa]
-
-theorem word_delta_inside (p k : Nat) (hp : p = 1 ∨ p = 2) : wordDfa.δ p k = wordG k := by
-  rcases hp with rfl | rfl <;> simp [wordDfa]
-
-/-- after the first character the token automaton runs like the word automaton -/
-theorem token_run_inside (s : List Char) : ∀ p, (p = 1 ∨ p = 2 ∨ p = 3) → tokenDfa.run p s = wordDfa.run p s := by
-  induction s with
-  | nil => intro p _; rfl
-  | cons c cs ih =>
-    intro p hp
-    simp only [Dfa.run]
-    rcases hp with hp | hp | hp
-    · rw [token_delta_inside p _ (Or.inl hp), word_delta_inside p _ (Or.inl hp), token_word_class]
-      exact ih _ (wordG_range _)
-    · rw [token_delta_inside p _ (Or.inr hp), word_delta_inside p _ (Or.inr hp), token_word_class]
-      exact ih _ (wordG_range _)
-    · subst hp
-      have a : tokenDfa.δ 3 (tokenDfa.classOf c) = 3 := by simp [tokenDfa]
-      have b : wordDfa.δ 3 (wordDfa.classOf c) = 3 := by simp [wordDfa]
-      rw [a, b]; exact ih 3 (by simp)
-
-theorem token_accept (s : List Char) (h : (tokenDfa.run 0 s == 1) = true) : TokenSafe s := by
-  have h : tokenDfa.run 0 s = 1 := by simpa using h
-  cases s with
-  | nil => simp [Dfa.run] at h
-  | cons c cs =>
-    simp only [Dfa.run] at h
-    have hδ : tokenDfa.δ 0 (tokenDfa.classOf c) = tokenG (tokenDfa.classOf c) := by simp [tokenDfa]
-    rw [hδ, token_step] at h
-    by_cases hw : startChar c = false
-    · simp only [hw, if_true] at h
-      rw [dead_run tokenDfa (by intro k; simp [tokenDfa])] at h; omega
-    · have hw : startChar c = true := by simpa using hw
-      simp only [hw, Bool.true_eq_false, if_false] at h
-      refine ⟨c, cs, rfl, hw, ?_, ?_⟩
-      · by_cases hd : c = '$'
-        · simp only [hd, if_true] at h
-          rw [token_run_inside cs 2 (by simp)] at h
-          exact (word_run_inside cs 2 (Or.inr rfl) h).1
-        · simp only [hd, if_false] at h
-          rw [token_run_inside cs 1 (by simp)] at h
-          exact (word_run_inside cs 1 (Or.inl rfl) h).1
-      · by_cases hd : c = '$'
-        · simp only [hd, if_true] at h
-          rw [token_run_inside cs 2 (by simp)] at h
-          obtain ⟨_, b, e⟩ := word_run_inside cs 2 (Or.inr rfl) h
-          cases cs with
-          | nil => exact absurd (e rfl) (by decide)
-          | cons d ds => simpa [endsDollar] using b (by simp)
-        · simp only [hd, if_false] at h
-          rw [token_run_inside cs 1 (by simp)] at h
-          obtain ⟨_, b, _⟩ := word_run_inside cs 1 (Or.inl rfl) h
-          cases cs with
-          | nil => simp [endsDollar, hd]
-          | cons d ds => simpa [endsDollar] using b (by simp)
+theorem token_accept (v : List Char) (h : (tokenDfa.run 0 v == 1) = true) : TokenSafe v := by
+  have h : tokenDfa.run 0 v = 1 := by simpa using h
+  obtain ⟨c, cs, rfl, hs, hb⟩ := token_accept_body v (Or.inl h)
+  refine ⟨c, cs, rfl, hs, ?_⟩
+  simp only [Dfa.run, token_first, hs, if_true] at h
+  rw [wordGo_first c cs hs]
+  by_cases hd : c = '$'
+  · subst hd
+    simp only [if_true] at h
+    rw [token_run_inside cs 2 (by omega)] at h
+    have := word_run_go cs true
+    simp only [if_true] at this
+    rw [this] at h
+    cases hw : wordGo true cs with
+    | none => rw [hw] at h; simp [enc] at h
+    | some b => cases b
+                · simpa using hw
+                · rw [hw] at h; simp [enc] at h
+  · simp only [hd, if_false] at h
+    rw [token_run_inside cs 1 (by omega)] at h
+    have := word_run_go cs false
+    simp only [Bool.false_eq_true, if_false] at this
+    rw [this] at h
+    have e : (c == '$') = false := by simpa using hd
+    rw [e]
+    cases hw : wordGo false cs with
+    | none => rw [hw] at h; simp [enc] at h
+    | some b => cases b
+                · rfl
+                · rw [hw] at h; simp [enc] at h
 
 end Nic.LexDfa
